@@ -47,9 +47,18 @@ def run_one(tape, opts):
     if runner != "plain":
         c.skip_decorators = False     # what @skip does to setUp/tearDown under the Twisted runners is not in any property
     prog = gen_program(tape, c)
-    sim = lc.simulate(prog, flavour, runner=runner)
+    # the same test object may be run again: what was registered while it ran (on-exception handlers,
+    # details) belongs to that run only
+    nruns = 2 if tape.chance("config", 1, 4, "run-twice") else 1
+    sim = lc.simulate(prog, flavour, nruns=nruns, runner=runner)
     rr = sim.runs[0]
     lc.oracle_details(sim, rr, out)
+    for later in sim.runs[1:]:
+        before = len(out.violations)
+        lc.oracle_details(sim, later, out)
+        for v in out.violations[before:]:
+            v.key += ":rerun"
+        out.probe("second-run-of-the-same-object")
     m = sim.model
     for r in m.R:
         out.fire("raise:" + r.kind)
